@@ -2,9 +2,13 @@
 //! public entry points `Level::run` (directed graph + transpose, default or explicit
 //! radial vertices) and `Level::run_symm`, at every level, with both `use_tot` options, on
 //! thread pools of 1..16 threads.  One case line per run: the input (graph, radial set,
-//! level, options, pool), everything the level's output structure contains, and the step
-//! log (which visits / SCC refinements were performed, from the progress-logger messages
-//! captured by a `log::Log` installed here).
+//! level, options, pool), everything the level's output structure contains, and the steps
+//! the run performed (`steps=`): direction and start vertex of every breadth-first visit,
+//! pivot array of every SCC refinement step, as reported by the guarded call-out
+//! `webgraph_algo::verif_hooks::ESS_STEP` (cargo feature `verif_hooks` of webgraph-algo).
+//! Tokens: `F<v>` / `B<v>` (forward / backward visit from `v`), `A:<p0>.<p1>...` (SCC step,
+//! `p_c` = pivot of component `c`).  The progress-logger messages are still captured, but
+//! only as an informational cross-check (`logsteps=`): nothing depends on their wording.
 use crate::util::*;
 use dsi_progress_logger::prelude::*;
 use std::io::Write;
@@ -14,9 +18,30 @@ use sux::traits::AtomicBitVecOps;
 use webgraph::prelude::*;
 use webgraph_algo::distances::exact_sum_sweep::{self as ess, Level};
 
-// ---------------------------------------------------------------- step log capture
+// ---------------------------------------------------------------- observed steps (call-out)
 
+/// The steps of the current run.  The harness runs one ExactSumSweep computation at a time;
+/// the steps of a run are sequential, but may be reported from any thread of its pool.
 static STEPS: Mutex<Vec<String>> = Mutex::new(Vec::new());
+
+fn install_step_hook() {
+    use webgraph_algo::verif_hooks::{ESS_STEP, EssStep};
+    let mut h = ESS_STEP.write().unwrap();
+    if h.is_none() {
+        *h = Some(Box::new(|step: &EssStep| {
+            let tok = match step {
+                EssStep::Visit { forward, start } => format!("{}{}", if *forward { "F" } else { "B" }, start),
+                EssStep::AllCcUpperBound { pivots } =>
+                    format!("A:{}", pivots.iter().map(|p| p.to_string()).collect::<Vec<_>>().join(".")),
+            };
+            STEPS.lock().unwrap().push(tok);
+        }));
+    }
+}
+
+// ---------------------------------------------------------------- step log capture (cross-check only)
+
+static LOGSTEPS: Mutex<Vec<String>> = Mutex::new(Vec::new());
 
 struct StepLog;
 impl log::Log for StepLog {
@@ -44,7 +69,7 @@ impl log::Log for StepLog {
         } else if m.starts_with("Computing best pivots") {
             Some("A".to_string())
         } else { None };
-        if let Some(t) = tok { STEPS.lock().unwrap().push(t); }
+        if let Some(t) = tok { LOGSTEPS.lock().unwrap().push(t); }
     }
     fn flush(&self) {}
 }
@@ -283,13 +308,15 @@ impl Runner {
         let g = from_lists(lists);
         let t = from_lists(&transpose(lists));
         STEPS.lock().unwrap().clear();
+        LOGSTEPS.lock().unwrap().clear();
         let pool = &self.pools[threads - 1];
         let r = catch(std::panic::AssertUnwindSafe(|| pool.install(|| run_level(&g, &t, sym, rad, lvl, tot))));
         let steps = STEPS.lock().unwrap().join(",");
+        let logsteps = LOGSTEPS.lock().unwrap().join(",");
         let (status, desc) = match r { Ok(d) => ("ok".to_string(), d), Err(p) => (format!("panic:{}", sanitize(&p)), String::new()) };
         let rads = match rad { None => "def".to_string(), Some(b) => if b.is_empty() { "-".into() } else { b.iter().map(|&x| if x { '1' } else { '0' }).collect() } };
-        writeln!(out, "ess id=e{} fam={} n={} g={} sym={} rad={} lvl={} tot={} pool={} status={} {} steps={}",
-            self.id, fam, lists.len(), fmt_lists(lists), sym as u8, rads, lvl, tot as u8, threads, status, desc, steps).unwrap();
+        writeln!(out, "ess id=e{} fam={} n={} g={} sym={} rad={} lvl={} tot={} pool={} status={} {} steps={} logsteps={}",
+            self.id, fam, lists.len(), fmt_lists(lists), sym as u8, rads, lvl, tot as u8, threads, status, desc, steps, logsteps).unwrap();
         self.id += 1;
     }
 
@@ -326,6 +353,7 @@ fn rand_radial(rng: &mut Rng, n: usize) -> Vec<bool> {
 
 /// `mode`: "quick", "rest" or "exh4:k/m"; `count` random graphs of at most `maxn` nodes
 pub fn run(seed: u64, count: usize, maxn: usize, mode: &str, out: &mut impl Write) {
+    install_step_hook();
     let _ = log::set_logger(&STEPLOG);
     log::set_max_level(log::LevelFilter::Info);
     let mut rng = Rng::new(seed ^ 0xE55);
